@@ -51,9 +51,13 @@ Definition is_hex (c : N) : bool := is_digit c || ((65 <=? c) && (c <=? 70)) || 
 Definition mem (c : N) (cs : text) : bool := existsb (N.eqb c) cs.
 Definition ascii_lower (c : N) : N := if (65 <=? c) && (c <=? 90) then c + 32 else c.
 Definition ascii_upper (c : N) : N := if (97 <=? c) && (c <=? 122) then c - 32 else c.
-Definition KELVIN : N := 8490.  (* U+212A: the only non-ASCII scalar whose to_lowercase() is ASCII ("k") *)
-(* char::to_lowercase of an input char equals that of an ASCII tag char x *)
-Definition lower_eq (c x : N) : bool := (ascii_lower c =? ascii_lower x) || ((c =? KELVIN) && (ascii_lower x =? 107)).
+(* str::eq_ignore_ascii_case on equally long byte strings, the second one ASCII: character-wise *)
+Fixpoint ci_eqb (a b : text) : bool :=
+  match a, b with
+  | [], [] => true
+  | x :: a', y :: b' => (ascii_lower x =? ascii_lower y) && ci_eqb a' b'
+  | _, _ => false
+  end.
 
 (* ---- splitting ---- *)
 Fixpoint take_while (f : N -> bool) (s : text) : text * text :=
@@ -124,21 +128,14 @@ Definition tag (t : text) : parser text := fun st i =>
   then (st, Ok (firstn (length t) (rem i)) (consume (firstn (length t) (rem i)) (skipn (length t) (rem i)) i))
   else (st, Err).
 
-(* tag_no_case: nom compares the zipped characters by to_lowercase(), then requires
-   input.len() >= tag.len() in BYTES and splits the input at the tag's BYTE length. *)
-Fixpoint zip_lower_eq (t s : text) : bool :=
-  match t, s with
-  | x :: t', c :: s' => lower_eq c x && zip_lower_eq t' s'
-  | _, _ => true
-  end.
+(* tag_no_case (parser/mod.rs, local; ASCII tags): `input.fragment().get(..tag.len())` -- None when the input is
+   shorter than the tag or tag.len() BYTES is not a character boundary -- compared with eq_ignore_ascii_case,
+   then split at tag.len().  Never panics. *)
 Definition tag_no_case (t : text) : parser text := fun st i =>
-  if zip_lower_eq t (rem i) then
-    match take_bytes (rem i) (length t) with
-    | BExact a b => (st, Ok a (consume a b i))
-    | BShort => (st, Err)
-    | BInside => (st, Abort Panic)
-    end
-  else (st, Err).
+  match take_bytes (rem i) (length t) with
+  | BExact a b => if ci_eqb a t then (st, Ok a (consume a b i)) else (st, Err)
+  | _ => (st, Err)
+  end.
 
 (* ---- combinators ---- *)
 Definition value_p {A} (v : A) : parser A := fun st i => (st, Ok v i).
